@@ -27,7 +27,21 @@ def run(files, main="main.oal", base=None, via_config=False, target_exists=False
     if target_exists:
         with open(tpath, "w") as f:
             f.write(SENTINEL)
-    if via_config:
+    dpath = os.path.join(d, "conf_out.yaml")
+    if via_config == "both":
+        # the configuration file names a decoy main module, a decoy target and a decoy base; the options name the real ones
+        with open(os.path.join(d, "decoy.oal"), "w") as f:
+            f.write("res / on get -> <decoy_is_not_defined>;\n")
+        if target_exists:
+            with open(dpath, "w") as f:
+                f.write(SENTINEL)
+        if base is not None:
+            with open(os.path.join(d, "decoy_base.yaml"), "w") as f:
+                f.write("openapi: 3.0.3\ninfo: {title: decoy, version: '0'}\npaths: {}\n")
+        with open(os.path.join(d, "oal.toml"), "w") as f:
+            f.write('[api]\nmain = "decoy.oal"\ntarget = "conf_out.yaml"\n' + ('base = "decoy_base.yaml"\n' if base is not None else ""))
+        args = [common.OAL_CLI, "-c", "oal.toml", "-m", main, "-t", "out.yaml"] + (["-b", "base.yaml"] if base is not None else [])
+    elif via_config:
         with open(os.path.join(d, "oal.toml"), "w") as f:
             f.write('[api]\nmain = "%s"\ntarget = "out.yaml"\n' % main + ('base = "base.yaml"\n' if base is not None else ""))
         args = [common.OAL_CLI, "-c", "oal.toml"]
@@ -47,4 +61,10 @@ def run(files, main="main.oal", base=None, via_config=False, target_exists=False
         with open(tpath, encoding="utf-8", errors="replace") as f:
             target = f.read()
     changed = (target is not None) if not target_exists else (target != SENTINEL)
-    return {"exit": rc, "stdout": out, "stderr": err, "target": target, "target_changed": changed, "timed_out": to, "dir": d}
+    decoy = None
+    if os.path.exists(dpath):
+        with open(dpath, encoding="utf-8", errors="replace") as f:
+            decoy = f.read()
+    decoy_changed = (decoy is not None) if not (via_config == "both" and target_exists) else (decoy != SENTINEL)
+    return {"exit": rc, "stdout": out, "stderr": err, "target": target, "target_changed": changed, "decoy_changed": decoy_changed,
+            "timed_out": to, "dir": d}
